@@ -234,6 +234,26 @@ def run(chk):
                     if key not in seen:
                         seen.add(key)
                         chk.violation('%s: %s' % (name, detail), {'class': name, 'input': b.hex(), 'predicate': 'alias'}, key, True)
+    # client hellos encoded by the Coq specification with each of the four combinations of the two signalling suites: the
+    # observers (compose, ja3, as_json, ...) must leave the hello as it was and keep returning the same results
+    from harness import impl, tlsgen
+    from cryptoparser.tls.subprotocol import TlsHandshakeClientHello
+    hello_lines = [tlsgen.client_hello(rng, impl, scsv=sc)[0] for sc in ([], [0x5600], [0x00ff], [0x5600, 0x00ff]) for _ in range(per + 1)]
+    br = common.build_runner()
+    if br.ok:
+        for l, o in zip(hello_lines, common.run_model(hello_lines)):
+            if not o.startswith('OK '):
+                continue
+            evals += 1
+            b = bytes.fromhex(o[3:])
+            name = sweep.qualname(TlsHandshakeClientHello)
+            for obs, detail in list(observer_failures(TlsHandshakeClientHello, b, rng, 4 * rounds)) + [('vector-copy', d) for d in vector_copy_failures(TlsHandshakeClientHello, b)]:
+                key = '%s/observer:%s' % (name, obs)
+                if key not in seen:
+                    seen.add(key)
+                    chk.violation('%s: %s' % (name, detail), {'class': name, 'input': b.hex(), 'cmd': l, 'predicate': 'observer', 'observer': obs}, key, True)
+    else:
+        chk.violation('model runner does not build: %s' % br.failed_file, {'error': br.error}, None, False)
     # the history the pinned tree failed on: a client hello one suite below the ceiling, both signalling flags set
     try:
         from cryptodatahub.tls.algorithm import TlsCipherSuite
